@@ -168,6 +168,35 @@ def generate(repo=None):
                 rows.append((gate, [('idx%d' % c, sets) for c, (p, sets) in enumerate(combos([str(k) for k in range(16)], basis), 1)]))
         except cxx.Refuse as e:
             refused.append((fn, str(e)))
+    # heralded channels: basis (xs, zs, herald record)
+    for gate, fn in [('HERALDED_ERASE', 'undo_HERALDED_ERASE'), ('HERALDED_PAULI_CHANNEL_1', 'undo_HERALDED_PAULI_CHANNEL_1')]:
+        try:
+            b = body_of(src, r'void ErrorAnalyzer::%s\(const CircuitInstruction &inst\)\s*\{' % fn)
+            m = re.search(r'add_error_combinations<3>\( \{(.*?)\}, \{tracker\.(xs|zs)\[q\]\.range\(\), tracker\.(xs|zs)\[q\]\.range\(\), herald_symptoms\.range\(\)\}, true, inst\.tag\);', b)
+            if not m:
+                raise cxx.Refuse('call shape')
+            for need in ['auto q = inst.targets[k].qubit_value();', 'tracker.num_measurements_in_past--;',
+                         'SparseXorVec<DemTarget> &herald_symptoms = tracker.rec_bits[tracker.num_measurements_in_past];',
+                         'tracker.rec_bits.erase(tracker.num_measurements_in_past);', 'for (size_t k = inst.targets.size(); k-- > 0;)']:
+                if need not in b:
+                    raise cxx.Refuse('expected statement missing: ' + need)
+            probs = split_args(m.group(1))
+            if len(probs) != 8:
+                raise cxx.Refuse('probability list')
+            if gate == 'HERALDED_ERASE':
+                if 'double p = inst.args[0] * 0.25;' not in b:
+                    raise cxx.Refuse('p = args[0] / 4 missing')
+                label = {'0': '0', 'p': 'quarter', 'i': 'rest'}
+            else:
+                for need in ['double hi = inst.args[0];', 'double hx = inst.args[1];', 'double hy = inst.args[2];', 'double hz = inst.args[3];']:
+                    if need not in b:
+                        raise cxx.Refuse('expected statement missing: ' + need)
+                label = {'0': '0', 'hi': 'I', 'hx': 'X', 'hy': 'Y', 'hz': 'Z', 'i': 'rest'}
+            basis = [m.group(2), m.group(3), 'herald']
+            terms = combos([label[x] for x in probs], basis)
+            rows.append((gate, terms))
+        except (cxx.Refuse, KeyError) as e:
+            refused.append((fn, str(e)))
     # pauli_xyz_to_xz
     try:
         b = body_of(ps, r'inline uint8_t pauli_xyz_to_xz\(uint8_t xyz\)\s*\{')
